@@ -37,11 +37,12 @@ FIT_SAMPLERS = {"fit_gibbs": "Gibbs", "fit_fastgibbs": "FastGibbs", "fit_mh": "M
 PERSONALIZE = {"pers_scipy": "scipy_minimize", "pers_mode": "mode_posterior", "pers_mean": "mean_posterior"}
 ALGOS = list(FIT_SAMPLERS) + list(PERSONALIZE) + ["simulate"]
 
-LOG_KEYS = ("print_periodicity", "save_periodicity", "plot_periodicity", "plot_patient_periodicity", "plot_sourcewise")
+LOG_KEYS = ("print_periodicity", "save_periodicity", "plot_periodicity", "plot_patient_periodicity", "plot_sourcewise",
+            "nb_of_patients_to_plot")
 PATH_MODES = ("absent", "fresh", "existing_overwrite", "existing_empty", "existing_nonempty")
 
 PRIORS = ("nothing", "rng1", "rng7", "fit_other", "personalize_other", "dtype_flip", "same_case", "same_other_seed",
-          "same_settings")
+          "same_settings", "custom_options")
 
 VISITS = {
     "patient_number": 4,
@@ -158,11 +159,57 @@ def ensure_env():
     torch.set_num_threads(1)
 
 
-def make_model_and_data(model_name, variant=0):
-    from .models import build_model, cohort_dataset
+# two more individuals for the 7-individual cohort (more individuals than the default nb_of_patients_to_plot = 5)
+EXTRA_INDIVIDUALS = {
+    "f": [(64.0, [0.20, 0.15, 0.25, 0.2]), (68.0, [0.32, 0.28, 0.33, 0.3]), (71.5, [0.45, 0.35, 0.41, 0.4])],
+    "g": [(73.0, [0.50, 0.42, 0.55, 0.5]), (77.0, [0.62, 0.58, 0.66, 0.6])],
+}
+EXTRA_EVENTS = {"f": (74.0, 0), "g": (79.5, 1)}
+
+
+def make_model_and_data(model_name, variant=0, cohort=5):
+    from . import models as M
+    from leaspy.io.data import Data, Dataset
 
     spec = dict(MODELS[model_name], variant=variant)
-    return build_model(spec), cohort_dataset(COHORT, spec)
+    if cohort == 5:
+        return M.build_model(spec), M.cohort_dataset(COHORT, spec)
+    assert cohort == 7
+    individuals = dict(M.INDIVIDUALS, **EXTRA_INDIVIDUALS)
+    events = dict(M.EVENTS, **EXTRA_EVENTS)
+    joint = spec["kind"] == "joint"
+    rows = [(i, age, list(vals[: spec["dim"]])) for i in COHORT + ["f", "g"] for age, vals in individuals[i]]
+    df = M.visits_frame(rows, [f"Y{k}" for k in range(spec["dim"])], events if joint else None)
+    data = Data.from_dataframe(df, "joint") if joint else Data.from_dataframe(df)
+    return M.build_model(spec), Dataset(data)
+
+
+# non-default nested options for the history 'custom_options' (same algorithm run first with them)
+CUSTOM_OPTIONS = {
+    "fit": [dict(sampler_pop_params={"acceptation_history_length": 2, "adaptive_std_factor": 0.5,
+                                     "mean_acceptation_rate_target_bounds": [0.05, 0.1], "random_order_dimension": False},
+                 sampler_ind_params={"acceptation_history_length": 2, "adaptive_std_factor": 0.5,
+                                     "mean_acceptation_rate_target_bounds": [0.05, 0.1]},
+                 annealing={"do_annealing": True, "initial_temperature": 5.0, "n_plateau": 2, "n_iter_frac": 0.5},
+                 random_order_variables=False)],
+    "mcmc_personalize": [dict(sampler_ind_params={"acceptation_history_length": 2, "adaptive_std_factor": 0.5,
+                                                  "mean_acceptation_rate_target_bounds": [0.05, 0.1]},
+                              annealing={"do_annealing": True, "initial_temperature": 5.0, "n_plateau": 2, "n_iter_frac": 0.5})],
+    "pers_scipy": [dict(use_jacobian=False, custom_scipy_minimize_params={"options": {"xtol": 1e-1, "ftol": 1e-1, "maxiter": 1}}),
+                   dict(use_jacobian=False, custom_scipy_minimize_params={"method": "Powell", "options": {"xtol": 1e-1, "maxiter": 2}}),
+                   dict(use_jacobian=True, custom_scipy_minimize_params={"method": "BFGS", "options": {"gtol": 1e-1, "maxiter": 1}}),
+                   dict(use_jacobian=True, custom_scipy_minimize_params={"options": {"gtol": 1e-1, "maxiter": 1}})],
+    "simulate": [dict(visit_parameters=dict(VISITS, patient_number=2, distance_visit_mean=0.5, min_spacing_between_visits=0.1),
+                      prefix="Other_")],
+}
+
+
+def custom_options_for(algo):
+    if algo in FIT_SAMPLERS:
+        return CUSTOM_OPTIONS["fit"]
+    if algo in ("pers_mode", "pers_mean"):
+        return CUSTOM_OPTIONS["mcmc_personalize"]
+    return CUSTOM_OPTIONS[algo]
 
 
 def algo_kwargs(algo, seed):
@@ -251,7 +298,14 @@ def _new_workdir():
                 raise
 
 
-def execute(algo, model_name, seed, log=None, route="settings", variant=0, shared=None):
+def _merge(base, extra):
+    out = dict(base)
+    for k, v in (extra or {}).items():
+        out[k] = _merge(out[k], v) if isinstance(v, dict) and isinstance(out.get(k), dict) else v
+    return out
+
+
+def execute(algo, model_name, seed, log=None, route="settings", variant=0, shared=None, cohort=5, extra=None):
     """Build a fresh model + dataset, run the seeded public call, return the observation.
 
     ``shared``: dict carrying one AlgorithmSettings object from one call to the next (history 'same_settings')."""
@@ -261,8 +315,9 @@ def execute(algo, model_name, seed, log=None, route="settings", variant=0, share
     workdir = _new_workdir()
     cwd = os.getcwd()
     try:
-        model, ds = make_model_and_data(model_name, variant)
+        model, ds = make_model_and_data(model_name, variant, cohort)
         name, kw = algo_kwargs(algo, seed)
+        kw = _merge(kw, extra)
         lkw, target = log_kwargs(log, workdir)
         os.chdir(workdir)
         obs = {"kind": None, "stage": None, "files": []}
@@ -358,9 +413,18 @@ def do_prior(prior, case):
             torch.set_default_dtype(torch.float32)
         return None
     if prior == "same_case":
-        return execute(case["algo"], case["model"], case["seed"], case.get("log"), case.get("route", "settings"))
+        return execute(case["algo"], case["model"], case["seed"], case.get("log"), case.get("route", "settings"),
+                       cohort=case.get("cohort", 5))
     if prior == "same_other_seed":
-        return execute(case["algo"], case["model"], case["seed"] + 11, None)
+        return execute(case["algo"], case["model"], case["seed"] + 11, None, cohort=case.get("cohort", 5))
+    if prior == "custom_options":
+        # the same algorithm run first with NON-default nested options (samplers / annealing / solver options / visit design)
+        pre = None
+        for extra in custom_options_for(case["algo"]):
+            pre = execute(case["algo"], case["model"], case["seed"] + 1, None, "settings", variant=1, extra=extra)
+            if pre.get("kind") == "raise" and pre.get("exc") != "LeaspyConvergenceError":
+                return dict(pre, custom_failed=True)
+        return pre
     if prior == "same_settings":
         # one AlgorithmSettings object used for two runs (first on the other variant of the model's parameters)
         shared = {}
@@ -373,8 +437,10 @@ def run_case(case):
     ensure_env()
     pre = do_prior(case.get("prior", "nothing"), case)
     shared = pre.pop("shared", None) if isinstance(pre, dict) else None
-    obs = execute(case["algo"], case["model"], case["seed"], case.get("log"), case.get("route", "settings"), shared=shared)
-    if isinstance(pre, dict) and pre.get("kind") == "raise" and case.get("prior") in ("fit_other", "personalize_other"):
+    obs = execute(case["algo"], case["model"], case["seed"], case.get("log"), case.get("route", "settings"), shared=shared,
+                  cohort=case.get("cohort", 5))
+    if isinstance(pre, dict) and pre.get("kind") == "raise" and (case.get("prior") in ("fit_other", "personalize_other")
+                                                                 or pre.get("custom_failed")):
         obs["prior_failed"] = {k: pre[k] for k in ("exc", "msg", "where") if k in pre}
     return obs
 
